@@ -129,6 +129,7 @@ func runOnce(t *testing.T, prop string, p *Plan, faults []simcf.Fault) *runOut {
 		var pubr *publish.CloudflarePublisher
 		// hurt: targets that an earlier publish failed to bring up to date because of a fault
 		hurt := map[TargetSpec]bool{}
+		callerBuf := make([]byte, 0, 256)
 		for k := range p.Pubs {
 			pub := &p.Pubs[k]
 			applyEdits(zones, pub.Edits)
@@ -156,8 +157,14 @@ func runOnce(t *testing.T, prop string, p *Plan, faults []simcf.Fault) *runOut {
 					}
 				}
 			}
+			given := pub.Config
+			if p.ReuseBuf && len(pub.Config) <= cap(callerBuf) {
+				callerBuf = append(callerBuf[:0], pub.Config...)
+				given = callerBuf
+				o.probe("config_in_reused_buffer")
+			}
 			panicked, pmsg, psite := core.Guard(func() {
-				results = pubr.PublishECH(ctx, targets, pub.Config)
+				results = pubr.PublishECH(ctx, targets, given)
 			})
 			cancel()
 			srv.OnRequest = nil
